@@ -129,9 +129,11 @@ TParse ==
          acc == Acceptable(std, InvalidObj, Len(Ev["in"]))
          got == ObjOf(Ev.oa)
          \* choose the acceptable outcome the implementation took (if any)
+         \* (when the observed outcome is not acceptable, the expected one is the Standard's result if the
+         \* limit allows it and "fails, nothing handed out" otherwise)
          exp == IF std.unspec THEN std
                 ELSE IF \E x \in acc : SameObj(got, x) THEN got
-                ELSE std
+                ELSE IF std \in acc THEN std ELSE InvalidObj
          d == CheckAll(exp, Ev)
      IN /\ objs' = [objs EXCEPT ![Ev.o] = got]
         /\ ndiag' = ndiag + d
@@ -145,7 +147,8 @@ TSet ==
          std == StdApply(old, Ev.op, Ev.v)
          acc == Acceptable(std, old, Len(Ev.v))
          got == ObjOf(Ev.oa)
-         exp == IF std.unspec THEN std ELSE IF \E x \in acc : SameObj(got, x) THEN got ELSE std
+         exp == IF std.unspec THEN std ELSE IF \E x \in acc : SameObj(got, x) THEN got
+                ELSE IF std \in acc THEN std ELSE old
          d == CheckAll(exp, Ev)
          \* a setter that reports failure leaves every observable unchanged
          atom == IF std.unspec THEN 0
